@@ -31,6 +31,42 @@ typedef struct sExpectError {
     tErrorNum            Num;
 } tExpectError;
 
+#ifdef ASL_VERIF
+#    include "verifhook.h"
+
+static FILE*        pVerifTrace      = NULL;
+static Boolean      VerifTraceTried  = False;
+static unsigned long VerifDiagSeq    = 0;
+static long          VerifCurrNum    = -1;
+
+FILE* VerifTrace(void) {
+    if (!VerifTraceTried) {
+        char const* pName = getenv("ASL_VERIF_TRACE");
+
+        VerifTraceTried = True;
+        if (pName && *pName) {
+            pVerifTrace = fopen(pName, "a");
+            if (pVerifTrace) {
+                setvbuf(pVerifTrace, NULL, _IOLBF, 0);
+            }
+        }
+    }
+    return pVerifTrace;
+}
+
+long VerifEnvLong(char const* pName, long Default) {
+    char const* pVal = getenv(pName);
+    char*       pEnd;
+    long        Result;
+
+    if (!pVal || !*pVal) {
+        return Default;
+    }
+    Result = strtol(pVal, &pEnd, 10);
+    return *pEnd ? Default : Result;
+}
+#endif /* ASL_VERIF */
+
 Word                 ErrorCount, WarnCount;
 static tExpectError* pExpectErrors = NULL;
 static Boolean       InExpect      = False;
@@ -975,6 +1011,19 @@ void WrErrorString(
     } else {
         ErrorCount++;
     }
+#ifdef ASL_VERIF
+    if (VerifTrace()) {
+        char* pPos = GetErrorPos();
+
+        fprintf(VerifTrace(), "D seq=%lu num=%ld class=%c errcnt=%u warncnt=%u pass=%d pos=%s\n",
+                ++VerifDiagSeq, VerifCurrNum, Fatal ? 'F' : (Warning ? 'W' : 'E'),
+                (unsigned)ErrorCount, (unsigned)WarnCount, (int)PassNo, pPos ? pPos : "");
+        if (pPos) {
+            free(pPos);
+        }
+    }
+    VerifCurrNum = -1;
+#endif
 
     strmaxcat(ErrStr[ErrStrCount], pMessage, STRINGSIZE);
     if ((ExtendErrors > 0) && pExtendError) {
@@ -1048,6 +1097,11 @@ void WrXErrorPos(
 
     pExpectError = FindAndTakeExpectError(Num);
     if (pExpectError) {
+#ifdef ASL_VERIF
+        if (VerifTrace()) {
+            fprintf(VerifTrace(), "X num=%ld pass=%d\n", (long)Num, (int)PassNo);
+        }
+#endif
         free(pExpectError);
         return;
     }
@@ -1071,6 +1125,9 @@ void WrXErrorPos(
     } else {
         *Add = '\0';
     }
+#ifdef ASL_VERIF
+    VerifCurrNum = (long)Num;
+#endif
     WrErrorString(pErrorMsg, Add, Num < 1000, Num >= 10000, pExtendError, pLineComp);
 }
 
